@@ -208,6 +208,7 @@ func TestVerifReplayC07(t *testing.T) {
 		"multibyte-inside": "package p\n\ntempl a() {\n\t<p>{ \"é日本\" + \"x\" }</p>\n}\n",
 		"multiline-expr":   "package p\n\ntempl a(items []string) {\n\tfor _, it := range items {\n\t\t<li>{ it }</li>\n\t}\n\t<p>{ fmt.Sprintf(\"%s-%s\",\n\t\t\"a\",\n\t\t\"bé\") }</p>\n}\n",
 		"multibyte-multiline": "package p\n\ntempl a(n string) {\n\tif n == \"生日快乐\" {\n\t\t<p>{ fmt.Sprintf(\"héllo %s\",\n\t\t\t\"wörld\",\n\t\t\tn) }</p>\n\t}\n}\n",
+		"newline-after-brace": "package p\n\ntempl a(name string, long string) {\n\t<div\n\t\ttitle={\n\t\t\tfmt.Sprintf(\"é %s\",\n\t\t\t\tname)\n\t\t}\n\t>\n\t\t{\n\t\t\tlong +\n\t\t\t\t\"x\"\n\t\t}\n\t\t{  name }\n\t</div>\n}\n",
 		"two-on-a-line":    "package p\n\ntempl a() { <a></a> } templ b() { <b></b> }\n",
 		"if-else":          "package p\n\ntempl a(x int) {\n\tif x == 1 {\n\t\t<a></a>\n\t} else if x == 2 {\n\t\t<b></b>\n\t} else {\n\t\t<i></i>\n\t}\n\tswitch x {\n\tcase 1:\n\t\t<a></a>\n\tdefault:\n\t\t<b></b>\n\t}\n}\n",
 		"attrs":            "package p\n\ntempl a(u string, ok bool, at templ.Attributes) {\n\t<a href={ templ.URL(u) } disabled?={ ok } { at... } if ok {\n\t\tclass=\"x\"\n\t}>{ u }</a>\n\t@b(u) {\n\t\t<i>{ u }</i>\n\t}\n\t@b(u)\n}\n\ntempl b(s string) {\n\t{ children... }\n}\n",
